@@ -252,7 +252,7 @@ std::string run(verif::Reader &rd, Case &c, World &w) {
         int op, i, j, h;
         if (!ext) { op = (int)rd.range(0, 63); i = (int)rd.idx(NS); j = (int)rd.idx(NS); h = (int)rd.idx(NS); }
         else {
-            op = (int)rd.range(0, 127); if (op >= 112) op = 74 + (op & 1); else if (op >= 80) op = 64 + (op - 80) % 16;
+            op = (int)rd.range(0, 127); if (op >= 122) op = 80; else if (op >= 112) op = 74 + (op & 1); else if (op >= 80) op = 64 + (op - 80) % 16;
             uint8_t bi = rd.u8(), bj = rd.u8(); h = (int)rd.idx(NS);
             i = bi % NS; j = bj % NS;
             if (w.focus >= 0 && w.s[w.focus].obj) { if (bi & 0x40) i = w.focus; if (bj & 0x40) j = w.focus; }
@@ -683,6 +683,41 @@ std::string run(verif::Reader &rd, Case &c, World &w) {
                 if (rd.flag()) { std::istringstream in(src); va::LibScope l; in >> *S; }
                 else { std::wstring ws; { va::LibScope l; ws = J->to_std_wstring(); } std::wistringstream in(ws); va::LibScope l; in >> *S; }
                 w.adopt(i); lab(c, "istream>>"); w.note("in(%d)>>%d; ", j, i); break; }
+            case 80: {   // a LIVE string (any pre-state, often long) is set / assigned from a pool char_buffer (lvalue or rvalue) or from its own storage,
+                         // under each of the three validation modes; later steps copy / move / slice it
+                int k2 = (int)rd.idx(NR); int v = (int)rd.range(0, 9);
+                static const ST::utf_validation_t vals[3] = {ST::assume_valid, ST::substitute_invalid, ST::check_validity};
+                ST::utf_validation_t val = vals[rd.idx(3)];
+                if (w.r[k2].kind != 1) w.destroy_res(k2);
+                w.ensure_buffer(k2, 1, w.s[j].obj ? j : i);
+                Res &R = w.r[k2]; ST::char_buffer &b = *static_cast<ST::char_buffer *>(R.obj); const ST::char_buffer &cb = b;
+                size_t sz = S->size(); size_t a = rd.range(0, sz), n = rd.range(0, sz - a);
+                std::string want(cb.data(), cb.size()); bool moved = false, refused = false;      // the buffer's bytes before the call
+                std::string tailz(mi.c_str() + a); std::string refused_what; const std::string before(S->c_str(), S->size());
+                w.mutated(i); target = i;
+                try {
+                    va::LibScope l;
+                    switch (v) {
+                    case 0: S->set(cb, val); break;
+                    case 1: moved = true; S->set(std::move(b), val); break;
+                    case 2: *S = cb; val = ST::check_validity; break;
+                    case 3: moved = true; *S = std::move(b); val = ST::check_validity; break;
+                    case 4: S->set_validated(cb); val = ST::assume_valid; break;
+                    case 5: *S = ST::string(cb, val); break;
+                    case 6: want = mi.substr(a, n); S->set(S->c_str() + a, n, val); break;
+                    case 7: want = mi.substr(a, n); S->set(S->view(a, n), val); break;
+                    case 8: want = mi.substr(a, n); S->set(S->u8_str() + a, n, val); break;
+                    default: want = tailz; S->set(S->c_str() + a, ST_AUTO_SIZE, val); break;
+                    }
+                } catch (const ST::unicode_error &e) { refused = true; refused_what = e.what(); lab(c, "refused-by-validation"); }
+                if (moved) w.snap(k2);
+                w.adopt(i);
+                // the value is determined when the mode copies verbatim or the bytes are plain ASCII (no repair, no refusal possible)
+                if (!refused && (val == ST::assume_valid || is_ascii(want)) && w.s[i].model != want)
+                    return "step " + verif::unum(k) + ": set/assign form " + verif::num(v) + " (mode " + verif::num((int)val) + ") of a live string left " + verif::quoted(w.s[i].model, 40) + ", the value given is " + verif::quoted(want, 40);
+                if (refused && is_ascii(want)) return "step " + verif::unum(k) + ": set/assign form " + verif::num(v) + " (mode " + verif::num((int)val) + ", offset " + verif::unum(a) + " of " + verif::unum(sz) + ") refused plain ASCII text " + verif::quoted(want, 40) + ": " + refused_what + " [model " + verif::hexs(mi.data(), mi.size()) + " | object before " + verif::hexs(before.data(), before.size()) + "]";
+                if (sz >= w.L - 1) w.nontrivial = true;
+                lab(c, v >= 6 ? "live-string-set-from-own-storage(mode)" : "live-string-set-from-buffer(mode)"); w.note("%d.setx#%d(mode %d); ", i, v, (int)val); break; }
             // ------------------------------------------------------------ const calls returning scalars
             default: {
                 if (!S) continue;
